@@ -87,10 +87,10 @@ let () =
            | 2 -> sYNCVAR_INITIALIZE_TO value | _ -> sYNCVAR_EMPTY_INITIALIZE_TO value) in
        set_word (int_of_string v) w;
        Buffer.add_string b "I |"; dump_vars b
-     | "O" :: _ | "M" :: _ | "X" :: _ ->
+     | "O" :: _ | "M" :: _ | "X" :: _ | "Y" :: _ ->
        let (t, v, code, hex, hd) = (match String.split_on_char ' ' line with
            | ["O"; t; v; code; hex; hd] -> (int_of_string t, int_of_string v, int_of_string code, hex, int_of_string hd)
-           | ["M"; v; code; hex; hd] | ["X"; v; code; hex; hd] -> (!ntasks, int_of_string v, int_of_string code, hex, int_of_string hd)
+           | ["M"; v; code; hex; hd] | ["X"; v; code; hex; hd] | ["Y"; v; code; hex; hd] -> (!ntasks, int_of_string v, int_of_string code, hex, int_of_string hd)
            | _ -> failwith "bad O/M line") in
        let evs = do_step t v (op_of code (n_of_hex hex) hd) in
        if List.exists (function Busy _ -> true | _ -> false) evs then
